@@ -184,6 +184,9 @@ enum Op {
     Clone(u8),
     /// Iterator::nth(k): an adapter the type may override
     Nth(u8, u8),
+    /// count(), last() and fold() on clones of the handle (the handle itself is not consumed): adapters the type may
+    /// override, asked in whatever state the handle is in
+    Tail(u8),
 }
 
 fn gen_program(ch: &mut Chooser, depth: usize) -> Vec<Op> {
@@ -198,6 +201,7 @@ fn gen_program(ch: &mut Chooser, depth: usize) -> Vec<Op> {
             menu.push(Some(Op::Fmt(h)));
             menu.push(Some(Op::Nth(h, 1)));
             menu.push(Some(Op::Nth(h, 7)));
+            menu.push(Some(Op::Tail(h)));
         }
         if live < 2 {
             menu.push(Some(Op::Clone(0)));
@@ -313,6 +317,42 @@ fn history(ctx: &mut Ctx, arena: &Arena, d: u32, ver: u32, l: usize, img: &[u8],
                     }
                 }
             }
+            Op::Tail(h) => {
+                let h = h as usize;
+                let Some(it) = real[h].as_ref() else { continue };
+                let r = ctx.call("count/last/fold on clones", || {
+                    let cnt = it.clone().count();
+                    let last = it.clone().last().map(|e| obs_desc(e, map));
+                    let folded: Vec<i64> = it.clone().fold(vec![], |mut v, e| { v.push(rel(e, map)); v });
+                    (cnt, last, folded)
+                });
+                match r {
+                    Out::Val((cnt, last, folded)) => {
+                        ctx.ob("tail.count", cnt as u64);
+                        if !ok {
+                            ctx.violation("c18/no-refusal", || format!("step {}: count()/last()/fold() returned normally on an invalid combination", step));
+                            return;
+                        }
+                        let rem = n - model[h].min(n);
+                        let want: Vec<i64> = (model[h].min(n)..n).map(|k| (k * d as usize) as i64).collect();
+                        if cnt != rem || folded != want || last.as_ref().map(|x| x.off) != want.last().copied() {
+                            ctx.violation("c18/history/adapters", || format!("step {} {:?}: with {} of {} descriptors consumed, count() = {}, last() at {:?}, fold() sees offsets {:?}; expected {} items at {:?}", step, op, model[h], n, cnt, last.as_ref().map(|x| x.off), folded, rem, want));
+                            return;
+                        }
+                        if let Some(de) = last {
+                            if !check_desc(ctx, &de, n - 1, d, ver, l, img, ok) {
+                                return;
+                            }
+                        }
+                    }
+                    Out::Panic => {
+                        if ok {
+                            ctx.violation("c18/spurious-panic/adapters", || format!("step {}: count()/last()/fold() panicked on a valid map", step));
+                            return;
+                        }
+                    }
+                }
+            }
             Op::Len(h) => {
                 let h = h as usize;
                 let Some(it) = real[h].as_ref() else { continue };
@@ -423,7 +463,7 @@ fn run(ctx: &mut Ctx) {
     }
     // histories
     let depth = if quick { 4 } else if ctx.dev_profile() { 5 } else { 6 };
-    ctx.bound("histories", format!("all call sequences up to depth {} over {{next, nth(1), nth(7), len, size_hint, Debug}} on up to 2 handles plus clone, on desc_size {{40,48,64}} x 0..=3 descriptors and six invalid combinations", depth));
+    ctx.bound("histories", format!("all call sequences up to depth {} over {{next, nth(1), nth(7), len, size_hint, Debug, count/last/fold on clones}} on up to 2 handles plus clone, on desc_size {{40,48,64}} x 0..=3 descriptors and six invalid combinations", depth));
     let mut inputs: Vec<(u32, u32, usize)> = vec![];
     for d in [40u32, 48, 64] {
         for k in 0..=3usize {
